@@ -167,7 +167,11 @@ def build_source(src, tmp, watch):
     if k == "bandit":
         return Environments.from_bandit_synthetic(src["n"], src["n_actions"], src["seed"])
     if k == "linear":
-        return Environments.from_linear_synthetic(src["n"], src["n_actions"], src["n_ctx"], src["n_act"], src["n_coeff"], list(src["rf"]), src["seed"])
+        if src.get("rf") is None:       # the constructor's own (shared, mutable) default
+            return Environments.from_linear_synthetic(src["n"], src["n_actions"], src["n_ctx"], src["n_act"], src["n_coeff"], seed=src["seed"])
+        rf = list(src["rf"])
+        watch["linear.reward_features"] = rf
+        return Environments.from_linear_synthetic(src["n"], src["n_actions"], src["n_ctx"], src["n_act"], src["n_coeff"], rf, src["seed"])
     if k == "neighbors":
         return Environments.from_neighbors_synthetic(src["n"], src["n_actions"], src["n_ctx"], src["n_act"], src["n_neigh"], src["seed"])
     if k == "kernel":
@@ -285,11 +289,14 @@ def make_filter(spec):
     return cls(*args, **kw)
 
 
-def apply_chain(envs, chain, tmp, watch):
-    for step in chain:
+def apply_chain(envs, chain, tmp, watch, multi=False):
+    for n_step, step in enumerate(chain):
         m = step["m"]
         args = [dv(a) for a in step.get("a", [])]
         kw = {k: dv(v) for k, v in step.get("k", {}).items()}
+        for key, val in list(enumerate(args)) + list(kw.items()):
+            if isinstance(val, (list, dict)):
+                watch["arg:%d:%s:%s" % (n_step, m, key)] = val       # a caller-owned mutable argument
         if m == "logged":
             lrn = make_learner(step["learner"])
             watch["learner%d" % len(watch)] = lrn
@@ -304,16 +311,35 @@ def apply_chain(envs, chain, tmp, watch):
             envs = envs.save(os.path.join(tmp, "chain_%d.zip" % len(os.listdir(tmp))))
         else:
             envs = getattr(envs, m)(*args, **kw)
-        envs = envs[step.get("pick", 0):step.get("pick", 0) + 1] if len(envs) > 1 else envs
+        if not multi:
+            envs = envs[step.get("pick", 0):step.get("pick", 0) + 1] if len(envs) > 1 else envs
         if m in ("cache", "materialize", "chunk", "save") or (m == "filter" and step["f"]["cls"] == "Cache"):
             watch.setdefault("_holders", []).append((m, envs))      # from here on the data is held by a cache / a file
     return envs
 
 
+def member_src(case):
+    m = member_of(case)
+    return case["src"] if m == 0 else case["sibs"][m - 1]
+
+
+def member_of(case):
+    return case.get("member", 0) if case.get("sibs") else 0
+
+
 def build(case, tmp):
+    """-> (Environments, watch).  With "sibs" the collection holds several different environments and the shortcut
+    methods are applied to the whole collection; the history is run on member `member_of(case)`."""
     watch = {}
     envs = build_source(case["src"], tmp, watch)
-    envs = apply_chain(envs, case.get("chain", []), tmp, watch)
+    for k, sib in enumerate(case.get("sibs") or []):
+        w2 = {}
+        envs = envs + build_source(sib, tmp, w2)
+        for key, val in w2.items():
+            if key == "_calls":
+                continue
+            watch["sib%d.%s" % (k, key) if not key.startswith("file:") else key] = val
+    envs = apply_chain(envs, case.get("chain", []), tmp, watch, multi=bool(case.get("sibs")))
     return envs, watch
 
 
@@ -356,9 +382,10 @@ def _deepvars(o, depth=0):
 # ----------------------------------------------------------------------------------------------
 # running a history on the real code
 class Obj:
-    def __init__(self, envs, how, parent=None):
-        self.envs = envs            # Environments of length 1 (what the user holds)
-        self.env = envs[0]          # the Environment the user reads again and again
+    def __init__(self, envs, how, parent=None, member=0):
+        self.envs = envs            # the Environments the user holds (one member, or a collection of different environments)
+        self.member = member if len(envs) > member else 0
+        self.env = envs[self.member]    # the Environment the user reads again and again
         self.how = how
         self.parent = parent
         self.read_done = False      # a complete read has happened on this object (or was forced)
@@ -391,7 +418,8 @@ def run_history(case, tmp):
     from coba.environments import Environments
     envs, watch = build(case, tmp)
     before = snapshot(watch)
-    pool = [Obj(envs, "root")]
+    mem = member_of(case)
+    pool = [Obj(envs, "root", None, mem)]
     outs = []
     for h in case["hist"]:
         op = h["op"]
@@ -415,10 +443,16 @@ def run_history(case, tmp):
                 if exhausted:
                     o.read_done = True
                 outs.append({"partial": seq, "exhausted": exhausted, "calls": watch.get("_calls", [None])[0]})
+            elif op == "sib":
+                i = h["i"]
+                if i >= len(o.envs) or i == o.member:
+                    outs.append({"skip": "no such member"})
+                else:
+                    outs.append({"sib": full_read(o.envs[i]), "i": i})
             elif op == "params":
                 outs.append({"params": cv(dict(o.env.params)), "after_read": o.read_done})
             elif op == "materialize":
-                n = Obj(o.envs.materialize(), op, o)
+                n = Obj(o.envs.materialize(), op, o, o.member)
                 # materialize() forces a read unless the pipeline already ends with a cache (then it is returned as it is)
                 last = list(n.env)[-1]
                 forced = not any(q is last for q in list(o.env))
@@ -427,24 +461,26 @@ def run_history(case, tmp):
                 pool.append(n)
                 outs.append({"derived": op, "calls": watch.get("_calls", [None])[0]})
             elif op == "cache":
-                n = Obj(o.envs.cache(), op, o)
+                n = Obj(o.envs.cache(), op, o, o.member)
                 n.read_done = o.read_done
                 pool.append(n)
                 outs.append({"derived": op})
             elif op == "chunk":
-                n = Obj(o.envs.chunk(), op, o)
+                n = Obj(o.envs.chunk(), op, o, o.member)
                 n.read_done = o.read_done
                 pool.append(n)
                 outs.append({"derived": op})
             elif op == "pickle":
-                e2 = pickle.loads(pickle.dumps(o.env))
-                n = Obj(Environments(e2), op, o)
+                if len(o.envs) > 1:
+                    n = Obj(pickle.loads(pickle.dumps(o.envs)), op, o, o.member)      # the whole collection
+                else:
+                    n = Obj(Environments(pickle.loads(pickle.dumps(o.env))), op, o)
                 n.read_done = o.read_done
                 pool.append(n)
                 outs.append({"derived": op})
             elif op == "save":
                 path = os.path.join(tmp, "save_%d.zip" % len(os.listdir(tmp)))
-                n = Obj(o.envs.save(path), op, o)
+                n = Obj(o.envs.save(path), op, o, o.member)
                 n.read_done = True
                 o.read_done = True
                 pool.append(n)
@@ -463,13 +499,14 @@ def run_history(case, tmp):
     return outs, before, after
 
 
-def reference(case, tmp):
+def reference(case, tmp, member=None):
     """the denotation: one full read and the params after it, on a freshly built pipeline"""
     envs, watch = build(case, tmp)
-    env = envs[0]
+    env = envs[member_of(case) if member is None else member]
     seq = full_read(env)
     params = cv(dict(env.params))
-    REF_EXTRA["src_params_after_read"] = dict(list(env)[0].params)
+    if member is None:
+        REF_EXTRA["src_params_after_read"] = dict(list(env)[0].params)
     return seq, params
 
 
@@ -556,7 +593,7 @@ def g_synth(rng, n):
         shape = {"ctx": "none", "act": "onehot", "width": 0, "nact": na}
         return {"kind": k, "n": n, "n_actions": na, "seed": seed}, shape
     if k == "linear":
-        rf = rng.choice([["a", "xa"], ["x", "a"], ["xa"], ["a"], ["x", "xa", "xxa"]])
+        rf = rng.choice([["a", "xa"], ["x", "a"], ["xa"], ["a"], ["x", "xa", "xxa"], None, None])     # None: the constructor's default
         return {"kind": k, "n": n, "n_actions": na, "n_ctx": nc, "n_act": nf, "n_coeff": rng.choice([None, 1, 3, 5]), "rf": rf, "seed": seed}, shape
     if k == "neighbors":
         return {"kind": k, "n": n, "n_actions": na, "n_ctx": nc, "n_act": nf, "n_neigh": rng.randint(1, 6), "seed": seed}, shape
@@ -958,6 +995,8 @@ def g_chain(rng, sh):
         forced = ["impute"] if rng.chance(0.5) else [holder, "impute"]
     elif r < 66:
         forced = ["cache", "cycle"]
+    elif r < 70:
+        forced = ["grounded", holder]
     while len(chain) < L + len(forced) and tries < 40:
         tries += 1
         if forced:
@@ -997,13 +1036,45 @@ def g_chain(rng, sh):
     return chain, sh
 
 
-def g_hist(rng, n_est):
+def sibling_of(rng, src):
+    """a DIFFERENT environment of the same shape (so that the same chain of shortcuts applies to it)"""
+    s2 = json.loads(json.dumps(src))
+    k = src["kind"]
+    if k in ("bandit", "linear", "neighbors", "kernel", "mlp"):
+        s2["seed"] = src["seed"] + rng.randint(1, 5)
+        s2["n"] = max(0, src["n"] + rng.choice([-1, 0, 1, 3]))
+    elif k == "lambda":
+        s2["rwds"] = [[(x + 0.25) % 1.25 for x in row] for row in src["rwds"]][::-1]
+        s2["ctxs"] = src["ctxs"][1:] + src["ctxs"][:1] if len(src["ctxs"]) > 1 else src["ctxs"]
+        s2["n"] = max(0, src["n"] + rng.choice([-1, 1, 2]))
+    elif k == "sup_xy":
+        s2["X"], s2["Y"] = src["X"][::-1][:max(1, len(src["X"]) - 1)], src["Y"][::-1][:max(1, len(src["Y"]) - 1)]
+    elif k == "sup_rows":
+        s2["rows"] = src["rows"][::-1][:max(1, len(src["rows"]) - 1)]
+    elif k == "sup_file":
+        lines = src["lines"]
+        nh = 0
+        if src["fmt"] == "csv" and src.get("has_header"):
+            nh = 1
+        elif src["fmt"] == "arff":
+            nh = lines.index("@data") + 1
+        elif src["fmt"] == "manik":
+            nh = 1
+        s2["lines"] = lines[:nh] + lines[nh:][::-1][:max(1, len(lines) - nh - 1)]
+    else:
+        return None
+    return s2 if s2 != src else None
+
+
+def g_hist(rng, n_est, nmembers=1, member=0):
     L = rng.randint(2, 6)
     hist = []
     npool = 1
     floor = 0
     fulls = 0
     for i in range(L):
+        if nmembers > 1 and rng.chance(0.35):
+            hist.append({"op": "sib", "on": rng.randint(floor, npool - 1), "i": rng.choice([k for k in range(nmembers) if k != member])})
         r = rng.below(100)
         on = -1 if rng.chance(0.8) else rng.randint(floor, npool - 1)
         onabs = npool - 1 if on == -1 else on
@@ -1022,6 +1093,8 @@ def g_hist(rng, n_est):
             if op in ("cache", "chunk"):
                 floor = npool - 1
     # every history ends with observations of the newest object
+    if nmembers > 1 and rng.chance(0.7):
+        hist.append({"op": "sib", "on": npool - 1, "i": rng.choice([k for k in range(nmembers) if k != member])})
     hist.append({"op": "full", "on": npool - 1})
     if rng.chance(0.5):
         hist.append({"op": "params", "on": npool - 1})
@@ -1195,6 +1268,7 @@ def monitor(case, tmp):
     outs, before, after = run_history(case, tmp)
     raw = []
     nfull = 0
+    sibref = {}
     for i, (h, o) in enumerate(zip(case["hist"], outs)):
         op = h["op"]
         if "skip" in o:
@@ -1216,6 +1290,18 @@ def monitor(case, tmp):
                 if dk != "regrouped":
                     dk = diffkind(o["partial"], ref[:len(o["partial"])])
                 raw.append(("partial-differs" if dk != "regrouped" else "batches", dk, "history step %d: abandoned read of %d items is not a prefix of a fresh read" % (i, len(o["partial"]))))
+        elif op == "sib":
+            k = o["i"]
+            if k not in sibref:
+                try:
+                    sibref[k] = reference(case, tmp, k)[0]
+                except BaseException as e:
+                    if not trappable(e):
+                        raise
+                    sibref[k] = None
+            if sibref[k] is not None and o["sib"] != sibref[k]:
+                raw.append(("sibling-differs" if diffkind(o["sib"], sibref[k]) != "regrouped" else "batches", diffkind(o["sib"], sibref[k]), "history step %d: member %d of the collection returned %d interactions that differ from its own fresh read "
+                            "(the history is run on member %d)" % (i, k, len(o["sib"]), member_of(case))))
         elif op == "params":
             if o["after_read"] and o["params"] != refp:
                 raw.append(("params-differ", pdiff(o["params"], refp), "history step %d: params after a completed read are %s, a fresh pipeline reports %s after its read"
@@ -1226,6 +1312,35 @@ def monitor(case, tmp):
     raw += held_data_check(case, tmp, tags)
     info = {"ref_len": len(ref), "nfull": nfull, "outs": outs, "ref": ref, "refp": refp, "srcpost": srcpost}
     return raw, tags, info
+
+
+LAST_PROBE = {}
+
+
+def default_probe():
+    """fresh environments built with the constructors' own defaults: what they yield and report must not depend on
+    anything another environment did before (shared module-level / default-argument objects)"""
+    from coba.environments import Environments
+    out = {}
+    makers = {
+        "linear": lambda: Environments.from_linear_synthetic(2, n_actions=2, n_context_features=2, n_action_features=2),
+        "linear-noctx": lambda: Environments.from_linear_synthetic(3, n_actions=2, n_context_features=0, n_action_features=2),
+        "linear-noact": lambda: Environments.from_linear_synthetic(3, n_actions=2, n_context_features=2, n_action_features=0),
+        "neighbors": lambda: Environments.from_neighbors_synthetic(3, n_actions=2, n_context_features=2, n_action_features=2, n_neighborhoods=3),
+        "kernel": lambda: Environments.from_kernel_synthetic(3, n_actions=2, n_context_features=2, n_action_features=2, n_exemplars=2),
+        "mlp": lambda: Environments.from_mlp_synthetic(3, n_actions=2, n_context_features=2, n_action_features=2),
+        "bandit": lambda: Environments.from_bandit_synthetic(3, n_actions=2),
+    }
+    for k, mk in makers.items():
+        try:
+            env = mk()[0]
+            p0 = cv(dict(env.params))
+            out[k] = cjson([p0, full_read(env), cv(dict(env.params))])
+        except BaseException as e:
+            if not trappable(e):
+                raise
+            out[k] = "raised " + errname(e)
+    return out
 
 
 def held_data_check(case, tmp, tags):
@@ -1239,8 +1354,9 @@ def held_data_check(case, tmp, tags):
     try:
         envs, watch = build(case, tmp)
         holders = watch.get("_holders", [])
-        env = envs[0]
-        views = [(m, h[0]) for m, h in holders]
+        mem = member_of(case)
+        env = envs[mem]
+        views = [(m, h[mem] if len(h) > mem else h[0]) for m, h in holders]
         snap0 = [full_read(v) for _, v in views]          # also fills the caches, as a first complete read would
         tags.append("held-data-check")
         for n in (1, 2):
@@ -1379,7 +1495,7 @@ def describe(case, tmp, nd, srcpost=None):
     import coba.environments.filters as ef
     from coba.random import CobaRandom
     envs, watch = build(case, tmp)
-    env = envs[0]
+    env = envs[member_of(case)]
     pipes = list(env)
     I = Interner()
     source = pipes[0]
@@ -1387,7 +1503,7 @@ def describe(case, tmp, nd, srcpost=None):
     cur = list(source.read())
     post = srcpost if srcpost is not None else dict(source.params)    # source params after a full read of the PIPELINE
     ids = I.items([cint(x) for x in cur])
-    once_asis = case["src"]["kind"] == "sup_xy" and not any(st["m"] == "save" for st in case.get("chain", []))
+    once_asis = member_src(case)["kind"] == "sup_xy" and not any(st["m"] == "save" for st in case.get("chain", []))
     src = {"once": False, "once_asis": once_asis, "items": ids, "parPre": I.ptoks(0, pre), "parPost": I.ptoks(0, post)}
     nodes = []
     fin_table = []
@@ -1472,6 +1588,8 @@ def describe(case, tmp, nd, srcpost=None):
 def model_hist(case):
     out = []
     for h in case["hist"]:
+        if h["op"] == "sib":
+            continue
         m = {"op": h["op"], "on": h["on"] if h.get("on", -1) >= 0 else 0}
         if h["op"] == "partial":
             m["k"] = h["k"]
@@ -1493,7 +1611,8 @@ def asis_request(req, case):
 def compare_model(case, outs, model, I):
     """-> list of (step, what) where the implementation and the model disagree"""
     diffs = []
-    for i, (h, o, m) in enumerate(zip(case["hist"], outs, model)):
+    keep = [(i, h, o) for i, (h, o) in enumerate(zip(case["hist"], outs)) if h["op"] != "sib"]
+    for (i, h, o), m in zip(keep, model):
         op = h["op"]
         if "skip" in o:
             if m != "skip":
@@ -1554,8 +1673,29 @@ class C04(Property):
     def generate(self, rng, tier):
         src, sh = g_source(rng)
         chain, sh2 = g_chain(rng, sh)
-        hist = g_hist(rng, sh2.get("n", 5))
-        return {"src": src, "chain": chain, "hist": hist}
+        case = {"src": src, "chain": chain}
+        # filters that memoise per instance (Grounded's feedbacks): more evaluations per read than any bounded memo would hold
+        names = [st["m"] for st in chain]
+        if "grounded" in names and isinstance(src.get("n"), int) and rng.chance(0.6):
+            src["n"] = rng.choice([100, 130, 260])
+            sh2["n"] = src["n"]
+        # a collection of 2-3 different environments; the shortcuts are applied to the collection, the history runs on one member
+        nmembers, member = 1, 0
+        if rng.chance(0.25):
+            sibs = [x for x in (sibling_of(rng, src) for _ in range(rng.choice([1, 1, 2]))) if x is not None]
+            if sibs:
+                for st in chain:          # steps that multiply the environments are replaced by their single form
+                    if "pick" in st:
+                        st.pop("pick")
+                        if st["m"] == "shuffle":
+                            st.pop("k", None)
+                            st["a"] = [rng.randint(0, 20)]
+                case["sibs"] = sibs
+                nmembers = 1 + len(sibs)
+                member = rng.randint(0, nmembers - 1)
+                case["member"] = member
+        case["hist"] = g_hist(rng, sh2.get("n", 5), nmembers, member)
+        return case
 
     def search(self, rng, tier):
         return self.generate(rng, tier)
@@ -1707,14 +1847,25 @@ class C04(Property):
         if "witness" in case:
             return self.witness(case)
         fails = []
-        tags = ["src:" + case["src"]["kind"] + (":" + case["src"].get("fmt", case["src"].get("via", "")) if case["src"]["kind"] in ("sup_file", "sup_rows", "result") else "")]
+        msrc = member_src(case)
+        tags = ["src:" + msrc["kind"] + (":" + msrc.get("fmt", msrc.get("via", "")) if msrc["kind"] in ("sup_file", "sup_rows", "result") else "")]
         for st in case.get("chain", []):
             tags.append("m:" + st["m"] + (":" + st["f"]["cls"] if st["m"] == "filter" else ""))
         for h in case["hist"]:
             tags.append("op:" + h["op"])
         tags.append("chainlen:%d" % len(case.get("chain", [])))
+        probe0 = LAST_PROBE.get("p") or default_probe()       # nothing runs in this process between two cases
         raw, t2, info = monitor(case, tmp)
         tags += t2
+        probe1 = default_probe()
+        LAST_PROBE["p"] = probe1
+        if probe0 != probe1:
+            ks = sorted(k for k in probe0 if probe0[k] != probe1.get(k))
+            f = F("B", "after this case a FRESH environment built with the constructor's defaults (%s) yields other interactions / params than before it: "
+                       "reading modified an object shared between environments (e.g. a mutable default argument)" % ", ".join(ks), "shared-default-modified:" + ",".join(ks))
+            fails.append(f)
+        if case.get("sibs"):
+            tags.append("collection:%d" % (1 + len(case["sibs"])))
         if raw is None:
             return {"fails": [], "nontrivial": False, "tags": tags, "impl": info}
         if raw:
@@ -1747,7 +1898,7 @@ class C04(Property):
         model = ans["model"]
         # (C) run-time sanity of the theorems: when their hypotheses hold the model's reads are the denotation
         if ans["hyp"]:
-            for h, m in zip(case["hist"], model):
+            for h, m in zip([h for h in case["hist"] if h["op"] != "sib"], model):
                 if h["op"] == "full" and isinstance(m, dict) and m.get("items") != ans["den"]:
                     fails.append(F("C", "model: a full read differs from the denotation although the hypotheses of `reread` hold", "C:reread"))
                 if h["op"] == "partial" and isinstance(m, dict) and m.get("items") != ans["den"][:len(m.get("items", []))]:
@@ -1839,6 +1990,15 @@ class C04(Property):
                 yield dict(case, hist=h2)
         for k in range(len(chain)):
             yield dict(case, chain=chain[:k] + chain[k + 1:])
+        if case.get("sibs") and len(case["sibs"]) > 1:
+            for k in range(len(case["sibs"])):
+                m = case.get("member", 0)
+                if m - 1 == k:
+                    continue
+                sibs = case["sibs"][:k] + case["sibs"][k + 1:]
+                shift = lambda i: i - 1 if i > k + 1 else i
+                h2 = [dict(h, i=shift(h["i"])) if h["op"] == "sib" else h for h in hist if not (h["op"] == "sib" and h["i"] == k + 1)]
+                yield dict(case, sibs=sibs, member=shift(m), hist=h2)
         src = case["src"]
         if isinstance(src.get("n"), int) and src["n"] > 1:
             for n in (src["n"] // 2, src["n"] - 1):
